@@ -5,9 +5,9 @@
 
    Source shapes (hidc/codegen/generator.py):
      try/undo     468-478     j H; BODY; j E; halt; H: UNDO; E:
-     try/stop     435-467     swso [fp],-k,[ap]; mov [try_fp],[fp]; mov [defeat],H; j B;
+     try/stop     438-474     swso [fp],-k,[ap]; mov [try_fp],[fp]; mov [defeat],H; j B;
                               mov [defeat],halt; B: BODY; j E; halt;
-                              H: mov [fp],[try_fp]; lwso [ap],[fp],-k; STOP; E:
+                              H: mov [defeat],prev; mov [fp],[try_fp]; lwso [ap],[fp],-k; STOP; E:
      preempt      479-494     j DO; [hne [defeat],halt;] j END; halt; DO: BLOCK; END:
      ??           713-725     (r_out := right); j E; LEFT; heq l,r; [mov r_out,l;] E:
      defeat call  884-892, 1129-1167   [j [defeat];] halt   /   [j [defeat];] hcc a,b
@@ -345,10 +345,12 @@ Proof.
   - unfold m'. rewrite lw_sw_other by (assumption || lia). now rewrite lw_sw_same by (assumption || lia).
 Qed.
 
-(* handler entry, exactly as emitted (lines 460-465):
+(* the fp/ap restoring part of the handler entry (the whole entry BEFORE commit 9d8b1d9):
      H: mov [fp],[try_fp];  H+1: lwso [ap],[fp],-k      (pop(ap_bubble) emits nothing)
-   restores fp from try_fp and ap from the frame slot -- and does NOT touch the defeat word. *)
-Theorem stop_handler_entry H mh fp ap tryfp k defeat :
+   restores fp from try_fp and ap from the frame slot -- and does NOT touch the defeat word.
+   The `_without_reset` lemmas below are about this two-instruction sequence; they are no longer
+   statements about the emitted code, they explain why the reset `mov [defeat],prev` is needed. *)
+Theorem stop_handler_entry_without_reset H mh fp ap tryfp k defeat :
   code H = Some (IMov (St fp) (St tryfp)) ->
   code (H + 1) = Some (ILoadO WWord SState (St ap) (St fp) (Imm k)) ->
   inb mh fp w = true -> inb mh ap w = true -> inb mh tryfp w = true ->
@@ -382,11 +384,10 @@ Proof.
   - unfold m', m1. rewrite !lw_sw_other by (assumption || lia). reflexivity.
 Qed.
 
-(* KNOWN DEFECT F2, refuting the clause "with defeat behaving normally again": when the stop
-   handler's block starts, the defeat word still holds the handler address, not the halt
-   address.  (Nothing in the emitted handler entry writes it; the compile-time variable
-   effective_defeat is reset, the run-time word is not.) *)
-Theorem stop_leaves_defeat_stale H mh fp ap tryfp k defeat HANDLER hv :
+(* WHY THE RESET IS NEEDED (the former defect F2, fixed by 9d8b1d9): with only the two
+   restoring instructions, when the stop handler's block starts the defeat word still holds the
+   handler address, not the halt address. *)
+Theorem stop_leaves_defeat_stale_without_reset H mh fp ap tryfp k defeat HANDLER hv :
   code H = Some (IMov (St fp) (St tryfp)) ->
   code (H + 1) = Some (ILoadO WWord SState (St ap) (St fp) (Imm k)) ->
   inb mh fp w = true -> inb mh ap w = true -> inb mh tryfp w = true ->
@@ -398,18 +399,18 @@ Theorem stop_leaves_defeat_stale H mh fp ap tryfp k defeat HANDLER hv :
   exists m', runs (mk H mh) [] (mk (H + 2) m') /\ lw m' defeat = HANDLER /\ lw m' defeat <> hv.
 Proof.
   intros C0 C1 If Ia It Hf Ha Hdf Dfa Ddf Dda Is Ld Ne.
-  destruct (stop_handler_entry H mh fp ap tryfp k defeat C0 C1 If Ia It Hf Ha Hdf Dfa Ddf Dda Is)
+  destruct (stop_handler_entry_without_reset H mh fp ap tryfp k defeat C0 C1 If Ia It Hf Ha Hdf Dfa Ddf Dda Is)
     as [R [_ [_ [_ Ldf]]]].
   eexists. split; [exact R|]. rewrite Ldf, Ld. split; [reflexivity | exact Ne].
 Qed.
-(* what the stale word does: any later virtual defeat call (e.g. !is_defeat() inside a defeat
+(* what a stale word would do: any later virtual defeat call (e.g. !is_defeat() inside a defeat
    function called from a subsequent try/undo body, or a preempt's `hne [defeat],halt`) in a
    memory where the word is still HANDLER re-enters the old handler / is forced *)
-Corollary stale_defeat_reenters_handler c mc defeat HANDLER :
+Corollary stale_defeat_reenters_handler_without_reset c mc defeat HANDLER :
   code c = Some (IJ (St defeat)) -> code (c + 1) = Some IHalt -> inb mc defeat w = true ->
   lw mc defeat = HANDLER -> cstep (mk c mc) None (mk HANDLER mc).
 Proof. intros Cj Ch I L. rewrite <- L. now apply defeat_call_virtual. Qed.
-Corollary stale_defeat_forces_preempt p m d D e E defeat hlo HANDLER hv :
+Corollary stale_defeat_forces_preempt_without_reset p m d D e E defeat hlo HANDLER hv :
   code p = Some (IJ d) -> oval m d = Some D ->
   code (p + 1) = Some (IHc Cne (St defeat) hlo) -> inb m defeat w = true -> oval m hlo = Some hv ->
   code (p + 2) = Some (IJ e) -> code (p + 3) = Some IHalt -> oval m e = Some E ->
@@ -422,19 +423,176 @@ Proof.
   - left. exact Ne.
 Qed.
 
+(* A later try/undo, with a fresh and with a stale defeat word.  The undo body reaches a virtual defeat call
+   (`j [defeat]; halt`, e.g. !is_defeat() in a defeat function it calls) at c with memory mc.
+   With the defeat word FRESH (= the address hv of the stdlib `halt: halt`) the body halts, so
+   the undo block runs from the memory at the jump -- the intended behaviour.  With the word
+   STALE (= the old stop handler, whose continuation does not halt) the body does not halt: it
+   is COMMITTED, events included, and control re-enters the old stop handler. *)
+Theorem undo_with_fresh_defeat p m h HU evs c mc defeat hv :
+  code p = Some (IJ h) -> oval m h = Some HU ->
+  runs (mk (p + 1) m) evs (mk c mc) ->
+  code c = Some (IJ (St defeat)) -> code (c + 1) = Some IHalt -> inb mc defeat w = true ->
+  lw mc defeat = hv -> code hv = Some IHalt ->
+  runs (mk p m) [] (mk HU m) /\ cstep (mk p m) None (mk HU m).
+Proof.
+  intros Cj Ah Rb Cc Ch I L Chv.
+  eapply jump_taken; eauto. apply (proj1 Rb).
+  apply (proj1 (defeat_call_virtual c mc defeat Cc Ch I)). rewrite L.
+  apply H_halt. now apply act_halt.
+Qed.
+Theorem undo_with_stale_defeat_without_reset p m h HU evs c mc defeat HANDLER :
+  code p = Some (IJ h) -> oval m h = Some HU ->
+  runs (mk (p + 1) m) evs (mk c mc) ->
+  code c = Some (IJ (St defeat)) -> code (c + 1) = Some IHalt -> inb mc defeat w = true ->
+  lw mc defeat = HANDLER -> ~ Halts (mk HANDLER mc) ->
+  runs (mk p m) evs (mk HANDLER mc) /\ ~ Halts (mk p m) /\ csteps (mk p m) evs (mk HANDLER mc).
+Proof.
+  intros Cj Ah Rb Cc Ch I L N. subst HANDLER.
+  eapply undo_commit; eauto using oval_st.
+Qed.
+
+
+(* ---------- the handler entry as emitted NOW (lines 463-471, after commit 9d8b1d9) ----------
+     H: mov [defeat],prev;  H+1: mov [fp],[try_fp];  H+2: lwso [ap],[fp],-k
+   prev = prev_defeat, the `halt` label in a you-function (value hv = the real halt address). *)
+Theorem stop_handler_entry H mh fp ap tryfp k defeat pdo hv :
+  code H = Some (IMov (St defeat) pdo) -> oval mh pdo = Some hv ->
+  code (H + 1) = Some (IMov (St fp) (St tryfp)) ->
+  code (H + 2) = Some (ILoadO WWord SState (St ap) (St fp) (Imm k)) ->
+  inb mh defeat w = true -> inb mh fp w = true -> inb mh ap w = true -> inb mh tryfp w = true ->
+  0 <= fp -> 0 <= ap -> 0 <= defeat -> 0 <= tryfp ->
+  (fp + w <= ap \/ ap + w <= fp) ->
+  (defeat + w <= fp \/ fp + w <= defeat) -> (defeat + w <= ap \/ ap + w <= defeat) ->
+  (defeat + w <= tryfp \/ tryfp + w <= defeat) ->
+  let m0 := sw mh defeat hv in
+  let m1 := sw m0 fp (lw mh tryfp) in
+  let slot := sgn (wrap (lw mh tryfp)) + sgn (wrap k) in
+  inb mh slot w = true ->
+  let m' := sw m1 ap (lw m1 slot) in
+  runs (mk H mh) [] (mk (H + 3) m') /\
+  lw m' defeat = wrap hv /\
+  lw m' fp = wrap (lw mh tryfp) /\
+  lw m' ap = wrap (lw m1 slot) /\
+  (0 <= slot -> (slot + w <= fp \/ fp + w <= slot) -> (slot + w <= defeat \/ defeat + w <= slot) ->
+     lw m' ap = wrap (lw mh slot)).
+Proof.
+  intros C0 Ap C1 C2 Id If Ia It Hf Ha Hdf Ht Dfa Ddf Dda Ddt m0 m1 slot Is m'.
+  assert (Lt : lw m0 tryfp = lw mh tryfp) by (unfold m0; now rewrite lw_sw_other by (assumption || lia)).
+  replace (H + 2) with (H + 1 + 1) in C2 by ring.
+  destruct (stop_handler_entry_without_reset (H + 1) m0 fp ap tryfp k defeat C1 C2) as [R [Lf [La [Ls Ld]]]];
+    try assumption; try (unfold m0; now rewrite inb_sw).
+  { rewrite Lt. unfold m0. now rewrite inb_sw. }
+  rewrite Lt in R, Lf, La, Ls, Ld. fold m1 slot m' in R, Lf, La, Ls, Ld.
+  replace (H + 1 + 2) with (H + 3) in R by ring.
+  split; [|split; [|split; [|split]]].
+  - eapply runs_tau; [eapply act_mov; eauto | exact R].
+  - rewrite Ld. unfold m0. now rewrite lw_sw_same by (assumption || lia).
+  - exact Lf.
+  - exact La.
+  - intros Hs D1 D2. rewrite (Ls Hs D1). f_equal. unfold m0. now rewrite lw_sw_other by (assumption || lia).
+Qed.
+(* the positive statement of the clause "with defeat behaving normally again" *)
+Theorem stop_handler_entry_resets_defeat H mh fp ap tryfp k defeat pdo hv :
+  code H = Some (IMov (St defeat) pdo) -> oval mh pdo = Some hv ->
+  code (H + 1) = Some (IMov (St fp) (St tryfp)) ->
+  code (H + 2) = Some (ILoadO WWord SState (St ap) (St fp) (Imm k)) ->
+  inb mh defeat w = true -> inb mh fp w = true -> inb mh ap w = true -> inb mh tryfp w = true ->
+  0 <= fp -> 0 <= ap -> 0 <= defeat -> 0 <= tryfp ->
+  (fp + w <= ap \/ ap + w <= fp) ->
+  (defeat + w <= fp \/ fp + w <= defeat) -> (defeat + w <= ap \/ ap + w <= defeat) ->
+  (defeat + w <= tryfp \/ tryfp + w <= defeat) ->
+  inb mh (sgn (wrap (lw mh tryfp)) + sgn (wrap k)) w = true ->
+  exists m', runs (mk H mh) [] (mk (H + 3) m') /\ lw m' defeat = wrap hv /\ lw m' fp = wrap (lw mh tryfp).
+Proof.
+  intros C0 Ap C1 C2 Id If Ia It Hf Ha Hdf Ht Dfa Ddf Dda Ddt Is.
+  destruct (stop_handler_entry H mh fp ap tryfp k defeat pdo hv C0 Ap C1 C2 Id If Ia It Hf Ha Hdf Ht Dfa Ddf Dda Ddt Is)
+    as [R [Ld [Lf _]]].
+  eexists. split; [exact R | split; [exact Ld | exact Lf]].
+Qed.
+
+(* try/stop fires, then a later try/undo: defeat behaves normally again.
+   (1) the stop prologue at q in m0; the body entered with defeat = halt halts, so (stop_idiom b)
+       it is entered with defeat = handler; it emits evs1 and reaches a virtual defeat call
+       `j [defeat]; halt` at d with memory mb, not having written the defeat word;
+   (2) control enters the handler H = wrap Hd, whose entry resets the word to hv = the address of
+       the stdlib `halt: halt`, and the stop block starts at H+3;
+   (3) any later try/undo (at p, memory m) whose body reaches `j [defeat]; halt` (at c, memory mc)
+       with the word as the handler entry left it is undone: its undo block runs from m. *)
+Theorem stop_fired_then_undo_behaves
+    q m0 defeat hdo bg hlo Hd hv evs1 d mb fp ap tryfp k pdo :
+  (* try/stop prologue *)
+  code q = Some (IMov (St defeat) hdo) -> oval m0 hdo = Some Hd ->
+  code (q + 1) = Some (IJ bg) -> code (q + 2) = Some (IMov (St defeat) hlo) ->
+  0 <= defeat -> inb m0 defeat w = true ->
+  let m1 := sw m0 defeat Hd in
+  oval m1 bg = Some (q + 3) -> oval m1 hlo = Some hv ->
+  Halts (mk (q + 3) (sw m1 defeat hv)) ->
+  (* the body, second attempt, up to its defeat call *)
+  runs (mk (q + 3) m1) evs1 (mk d mb) ->
+  code d = Some (IJ (St defeat)) -> code (d + 1) = Some IHalt -> lw mb defeat = wrap Hd ->
+  (* the handler entry at H = wrap Hd *)
+  let H := wrap Hd in
+  code H = Some (IMov (St defeat) pdo) -> oval mb pdo = Some hv ->
+  code (H + 1) = Some (IMov (St fp) (St tryfp)) ->
+  code (H + 2) = Some (ILoadO WWord SState (St ap) (St fp) (Imm k)) ->
+  inb mb defeat w = true -> inb mb fp w = true -> inb mb ap w = true -> inb mb tryfp w = true ->
+  0 <= fp -> 0 <= ap -> 0 <= tryfp ->
+  (fp + w <= ap \/ ap + w <= fp) ->
+  (defeat + w <= fp \/ fp + w <= defeat) -> (defeat + w <= ap \/ ap + w <= defeat) ->
+  (defeat + w <= tryfp \/ tryfp + w <= defeat) ->
+  let mh1 := sw (sw mb defeat hv) fp (lw mb tryfp) in
+  let slot := sgn (wrap (lw mb tryfp)) + sgn (wrap k) in
+  inb mb slot w = true ->
+  code (wrap hv) = Some IHalt ->
+  let m' := sw mh1 ap (lw mh1 slot) in
+  (* the stop block starts at H+3 with the defeat word reset ... *)
+  runs (mk q m0) evs1 (mk (H + 3) m') /\ lw m' defeat = wrap hv /\
+  (* ... and every later try/undo that sees this word is undone by a virtual defeat call *)
+  (forall p m h HU evs c mc,
+     code p = Some (IJ h) -> oval m h = Some HU ->
+     runs (mk (p + 1) m) evs (mk c mc) ->
+     code c = Some (IJ (St defeat)) -> code (c + 1) = Some IHalt -> inb mc defeat w = true ->
+     lw mc defeat = lw m' defeat ->
+     runs (mk p m) [] (mk HU m) /\ cstep (mk p m) None (mk HU m)).
+Proof.
+  intros C0 A0 C1 C2 Hdf I0 m1 Ab Ah Hb Rb Cd Cdh Lb H CH Ap CH1 CH2 Id If Ia It Hf Ha Ht Dfa Ddf Dda Ddt mh1 slot Is Chv m'.
+  destruct (stop_idiom q m0 defeat hdo bg hlo Hd hv C0 A0 C1 C2 Hdf I0 Ab Ah) as [_ Sb].
+  destruct (Sb Hb) as [R0 _].
+  destruct (defeat_call_virtual d mb defeat Cd Cdh Id) as [Rd _]. rewrite Lb in Rd. fold H in Rd.
+  destruct (stop_handler_entry H mb fp ap tryfp k defeat pdo hv CH Ap CH1 CH2 Id If Ia It Hf Ha Hdf Ht Dfa Ddf Dda Ddt Is)
+    as [Rh [Ld _]]. fold mh1 slot m' in Rh, Ld.
+  split; [|split; [exact Ld|]].
+  - replace evs1 with ([] ++ (evs1 ++ ([] ++ []))) by (cbn; now rewrite app_nil_r).
+    eapply runs_trans; [exact R0|]. eapply runs_trans; [exact Rb|]. eapply runs_trans; [exact Rd | exact Rh].
+  - intros p m h HU evs c mc Cj Au Ru Cc Cch Ic Lc.
+    eapply (undo_with_fresh_defeat p m h HU evs c mc defeat (wrap hv)); eauto. now rewrite Lc.
+Qed.
+
+(* return protection of preemptive defeat functions (gen_stmts 544-548):
+     p: j nonlocal_preempt; p+1: j [r1]; p+2: halt
+   the stub is entered iff the state after returning halts *)
+Theorem return_protection_idiom p m nlp N r :
+  code p = Some (IJ nlp) -> oval m nlp = Some N ->
+  code (p + 1) = Some (IJ (St r)) -> code (p + 2) = Some IHalt -> inb m r w = true ->
+  let ra := lw m r in
+  (Halts (mk ra m) -> runs (mk p m) [] (mk N m) /\ cstep (mk p m) None (mk N m)) /\
+  (~ Halts (mk ra m) -> runs (mk p m) [] (mk ra m) /\ ~ Halts (mk p m)) /\
+  (~ Halts (mk N m) -> ~ Halts (mk p m)).
+Proof.
+  intros Cj An Cr Ch I ra.
+  destruct (preempt_idiom_static p m nlp N (St r) ra Cj An Cr Ch (oval_st w cmem m r I)) as [X Y].
+  split; [exact X | split; [exact Y|]].
+  intros Nn Hp.
+  pose proof (act_j w code cmem p m nlp N Cj An) as Aj.
+  apply (halts_jump_inv act _ _ _ Aj) in Hp. tauto.
+Qed.
+
 End TimeTravel.
 
 (* ================================================================================= *)
 (* Satisfiability examples (w = 2, 16 bytes of state, all zero)                        *)
 (* ================================================================================= *)
-(* closed side conditions only (never the main goal) *)
-Ltac zc := match goal with
-  | |- _ <= _ => vm_compute; intro; discriminate
-  | |- _ < _ => vm_compute; reflexivity
-  | |- _ = true => vm_compute; reflexivity
-  | |- _ <> _ => vm_compute; intro; discriminate
-  | |- _ \/ _ => vm_compute; first [left; intro; discriminate | right; intro; discriminate]
-  end.
 Section Examples.
 Let m16 := zmem 16.
 Let cm := zmem 0.
@@ -565,6 +723,93 @@ Example stop_leaves_defeat_stale_ex : let c := code_of [IMov (St 2) (St 10); ILo
   exists m', runs (A c) (mk 0 m_hand) [] (mk 2 m') /\ lw 2 m' 8 = 7 /\ lw 2 m' 8 <> 9.
 Proof.
   intro c.
-  apply (stop_leaves_defeat_stale 2 ltac:(lia) c cm 0 m_hand 2 0 10 (-2) 8 7 9); try reflexivity; try lia; try zc.
+  apply (stop_leaves_defeat_stale_without_reset 2 ltac:(lia) c cm 0 m_hand 2 0 10 (-2) 8 7 9); try reflexivity; try lia; try zc.
+Qed.
+(* a later try/undo whose body yields 'A' and then calls a virtual defeat ([8] = defeat word) *)
+Definition c_undo := code_of [IJ (Imm 5); IYield (Imm 65); IJ (St 8); IHalt; IHalt; IFlag 0; IHalt; IJ (Imm 7); IHalt].
+Example undo_with_fresh_defeat_ex :   (* defeat word = 6 where `halt` lives: undo block at 5 runs, no output *)
+  cstep (A c_undo) (mk 0 (sw 2 m16 8 6)) None (mk 5 (sw 2 m16 8 6)).
+Proof.
+  refine (proj2 (undo_with_fresh_defeat 2 c_undo cm 0 (sw 2 m16 8 6) (Imm 5) 5 [EOut 65] 2 (sw 2 m16 8 6) 8 6 _ _ _ _ _ _ _ _)); try reflexivity.
+  apply (runs_next (A c_undo) (mk 1 _) (mk 2 _) (Some (EOut 65))). reflexivity.
+Qed.
+Example undo_with_stale_defeat_ex :   (* defeat word = 7, a stale handler that loops: body committed, 'A' is output *)
+  csteps (A c_undo) (mk 0 (sw 2 m16 8 7)) [EOut 65] (mk 7 (sw 2 m16 8 7)).
+Proof.
+  refine (proj2 (proj2 (undo_with_stale_defeat_without_reset 2 c_undo cm 0 (sw 2 m16 8 7) (Imm 5) 5 [EOut 65] 2 (sw 2 m16 8 7) 8 7 _ _ _ _ _ _ _ _))); try reflexivity.
+  - apply (runs_next (A c_undo) (mk 1 _) (mk 2 _) (Some (EOut 65))). reflexivity.
+  - apply stub_absorbing; [reflexivity | lia].
+Qed.
+Example return_protection_ex : let c := code_of [IJ (Imm 3); IJ (St 4); IHalt; IJ (Imm 3); IHalt] in
+  ~ Halts (A c) (mk 0 m16).
+Proof.
+  intro c. refine (proj2 (proj2 (return_protection_idiom 2 c cm 0 m16 (Imm 3) 3 4 _ _ _ _ _)) _); try reflexivity.
+  apply stub_absorbing; [reflexivity | lia].
+Qed.
+Example speculation_nomov_ex : let c := code_of [IJ (Imm 2); IHc Ceq (St 4) (St 6); IFlag 0] in
+  runs (A c) (mk 0 m16) [] (mk 2 m16).
+Proof.
+  intro c. destruct (speculation_idiom_nomov 2 c cm 0 m16 (Imm 2) [] 1 m16 (St 4) (St 6) 0 0) as [X _]; try reflexivity.
+  - apply runs_refl.
+  - apply X. reflexivity.
+Qed.
+Example defeat_call_static_ex : let c := code_of [IHalt] in Halts (A c) (mk 0 m16).
+Proof. intro c. apply (defeat_call_static 2 c cm). reflexivity. Qed.
+Example speculation_left_defeated_ex : let c := code_of [IJ (Imm 2); IHalt; IFlag 0] in
+  runs (A c) (mk 0 m16) [] (mk 2 m16).
+Proof.
+  intro c. refine (proj1 (speculation_left_defeated 2 c cm 0 m16 (Imm 2) 2 _ _ _)); try reflexivity.
+  apply H_halt. reflexivity.
+Qed.
+Example speculation_value_ex : let c := code_of [IJ (Imm 3); IHc Ceq (Imm 7) (St 6); IMov (St 4) (Imm 7); IJ (Imm 3); IHalt] in
+  exists mf evf, runs (A c) (mk 0 m16) evf (mk 3 mf) /\ lw 2 mf 4 = 7.
+Proof.
+  intro c.
+  destruct (speculation_value 2 ltac:(lia) c cm 0 m16 (Imm 3) [] 1 m16 (Imm 7) (St 6) 7 0 4) as [mf [evf [R [V _]]]];
+    try reflexivity; try lia; try zc.
+  - apply runs_refl.
+  - apply stub_absorbing; [reflexivity | lia].
+  - exists mf, evf. split; [exact R | exact V].
+Qed.
+Example stale_defeat_reenters_handler_ex : let c := code_of [IFlag 0; IJ (St 8); IHalt] in
+  cstep (A c) (mk 1 m16) None (mk 0 m16).
+Proof. intro c. apply (stale_defeat_reenters_handler_without_reset 2 c cm 1 m16 8 0); reflexivity. Qed.
+Example stale_defeat_forces_preempt_ex :   (* [8] = 0 is "stale" w.r.t. halt address 9; END loops, yet the block runs *)
+  let c := code_of [IJ (Imm 4); IHc Cne (St 8) (Imm 9); IJ (Imm 5); IHalt; IFlag 0; IJ (Imm 5); IHalt] in
+  cstep (A c) (mk 0 m16) None (mk 4 m16).
+Proof.
+  intro c. apply (stale_defeat_forces_preempt_without_reset 2 c cm 0 m16 (Imm 4) 4 (Imm 5) 5 8 (Imm 9) 0 9); try reflexivity. lia.
+Qed.
+(* the handler entry as emitted now: defeat=[8] (stale 7), halt address 9 *)
+Example stop_handler_entry_resets_defeat_ex :
+  let c := code_of [IMov (St 8) (Imm 9); IMov (St 2) (St 10); ILoadO WWord SState (St 0) (St 2) (Imm (-2))] in
+  exists m', runs (A c) (mk 0 m_hand) [] (mk 3 m') /\ lw 2 m' 8 = wrap 2 9 /\ lw 2 m' 2 = wrap 2 (lw 2 m_hand 10).
+Proof.
+  intro c.
+  apply (stop_handler_entry_resets_defeat 2 ltac:(lia) c cm 0 m_hand 2 0 10 (-2) 8 (Imm 9) 9); try reflexivity; try lia; try zc.
+Qed.
+(* whole story at w = 2.  ap=[0] fp=[2] defeat=[8] try_fp=[10]; fp = try_fp = 14.
+    0 mov [8],5 (handler)   1 j 3   2 mov [8],13 (halt)   3 j [8]; 4 halt   (body = !is_defeat())
+    5 mov [8],13   6 mov [2],[10]   7 lwso [0],[2],-2   (handler entry)   8 flag 0 (stop block)
+    9 j 12 (a later try/undo)   10 j [8]; 11 halt (its body = !is_defeat())   12 flag 0 (undo block)
+   13 halt: halt *)
+Definition c_story := code_of [IMov (St 8) (Imm 5); IJ (Imm 3); IMov (St 8) (Imm 13); IJ (St 8); IHalt;
+  IMov (St 8) (Imm 13); IMov (St 2) (St 10); ILoadO WWord SState (St 0) (St 2) (Imm (-2)); IFlag 0;
+  IJ (Imm 12); IJ (St 8); IHalt; IFlag 0; IHalt].
+Definition m_story : mem := sw 2 (sw 2 (zmem 16) 10 14) 2 14.
+Definition m_story_end : mem := sw 2 (sw 2 (sw 2 (sw 2 m_story 8 5) 8 13) 2 14) 0 0.
+Example stop_fired_then_undo_behaves_ex :
+  runs (A c_story) (mk 0 m_story) [] (mk 8 m_story_end) /\ lw 2 m_story_end 8 = 13 /\
+  cstep (A c_story) (mk 9 m_story_end) None (mk 12 m_story_end).
+Proof.
+  destruct (stop_fired_then_undo_behaves 2 ltac:(lia) c_story cm
+              0 m_story 8 (Imm 5) (Imm 3) (Imm 13) 5 13 [] 3 (sw 2 m_story 8 5) 2 0 10 (-2) (Imm 13))
+    as [R [L U]]; try reflexivity; try lia; try zc.
+  - (* the body with defeat = halt (13) halts: j [8] -> 13: halt *)
+    eapply H_jump; [reflexivity | |]; apply H_halt; reflexivity.
+  - apply runs_refl.
+  - split; [exact R | split; [exact L|]].
+    refine (proj2 (U 9 m_story_end (Imm 12) 12 [] 10 m_story_end _ _ _ _ _ _ _)); try reflexivity.
+    apply runs_refl.
 Qed.
 End Examples.
